@@ -70,7 +70,8 @@ def gen(rng, tier):
         c = rng.choice([1, 2, 137, 2 ** 32, 2 ** 64 - 1, rng.randrange(2 ** 200), 2 ** 255 - 19])
         j, _ = txgen.rand_tx(rng, kind="legacy", chain=c)
         cases.append(Case("cli.sign_tx %s - default %s 0 0" % (mn, hx(j)), runner="cli", tags=("parity-sample",), meta={"via": {}, "via_file": False}))
-    for par in (0, 1):
+    # the four recovery ids `Signature::from_parts` takes: bit 0 is the y-parity; bit 1 ("x was reduced") is no part of v
+    for par in (0, 1, 2, 3):
         for c in ["none"] + ["%064x" % x for x in [0, 1, 2 ** 64 - 1, 2 ** 255 - 20, 2 ** 255 - 19, 2 ** 255 - 18, 2 ** 255, 2 ** 256 - 1]]:
             cases.append(Case("sig.v %d %s" % (par, c), tags=("sig.v",)))
     # every bit boundary of the chain id: 2^k-1, 2^k, 2^k+1 for k = 0..255 (a narrower intermediate type, a shift that drops
